@@ -107,7 +107,7 @@ Example C28_blocks_nonvacuous :
     {| vs_rights := 1000; vs_used := 400; vs_votes := [{| v_id := 2; v_amt := 400; v_lock := 40 |}] |}.
 Proof. vm_compute. repeat split; reflexivity. Qed.
 
-(* The code as found (before /repo 5f4201e9) compared the wrapped int64 sum of
+(* The code as found (before /repo 75442e56) compared the wrapped int64 sum of
    the votes once: a stake address with 100 sela of vote rights casts 4 x 2^62
    votes (sum = 0 mod 2^64).  Replayed on the real Voting.SpecialContextCheck,
    repaired; the witness stays in the harness corpus. *)
